@@ -212,6 +212,8 @@ macro_rules! jcheck {
     let (i1, i2) = match fixed { Some((x, y)) => (x, y), None => (b1, b2) };
     let code = match cbv { Some(second) => [$op, second, i2], None => [$op, i1, i2] };
     let o = sm83ref::step(code, r0, rd);
+    #[cfg(verif_realizable)]
+    kani::assume(cpuh::realizable(&o, r0.pc));
     // interpreter first (records the bus log), then the translated code against that log
     let ri = cpuh::run_interp_for_jit(code, &r0, c0, rd, &o, $is_end);
     let mut ovr = [(usize::MAX, 0u8); 4];
